@@ -10,7 +10,7 @@ RULE = 'states x {Marshal->Unmarshal into a fresh instance} x alphabet continuat
 
 def run(tier):
     t0 = time.time()
-    budget = float(os.environ.get('VERIF_BUDGET_S', '150' if tier == 'quick' else '3000'))
+    budget = float(os.environ.get('VERIF_BUDGET_S', '240' if tier == 'quick' else '3000'))
     deadline = int(t0 + budget)
     binary = mcdrive.build_mc()
     sd = vlib.scratch_dir()
